@@ -322,7 +322,7 @@ func (e *Engine) typeOf(t types.Type) spec.Type {
 				if fn == "_" {
 					fn = fmt.Sprintf("blank%d", i)
 				}
-				fs = append(fs, spec.Field{Name: fn, Ty: e.typeOf(u.Field(i).Type())})
+				fs = append(fs, spec.Field{Name: fn, Ty: e.fieldTypeOf(u.Field(i).Type())})
 			}
 			e.Structs[name] = fs
 			e.order = append(e.order, name)
@@ -335,6 +335,44 @@ func (e *Engine) typeOf(t types.Type) spec.Type {
 		return spec.Type{K: spec.KUnit}
 	}
 	panic("unsupported type " + t.String())
+}
+
+// fieldTypeOf: a struct field of a type outside the subset (channels, functions, nested library types) is kept as an
+// opaque value; only the fields a function under contract actually uses need a model.
+func (e *Engine) fieldTypeOf(t types.Type) (ty spec.Type) {
+	defer func() {
+		if r := recover(); r != nil {
+			ty = spec.Type{K: spec.KAny}
+		}
+	}()
+	// a type that refers to itself (directly or through pointers and slices) has no finite datatype: keep the field opaque
+	var inProgress func(t types.Type, depth int) bool
+	inProgress = func(t types.Type, depth int) bool {
+		if depth > 4 {
+			return false
+		}
+		switch u := t.(type) {
+		case *types.Pointer:
+			return inProgress(u.Elem(), depth+1)
+		case *types.Slice:
+			return inProgress(u.Elem(), depth+1)
+		case *types.Named:
+			if _, isStruct := u.Underlying().(*types.Struct); isStruct {
+				if fs, reserved := e.Structs[u.Obj().Name()]; reserved && fs == nil {
+					return true
+				}
+			}
+		}
+		return false
+	}
+	if inProgress(t, 0) {
+		return spec.Type{K: spec.KAny}
+	}
+	ty = e.typeOf(t)
+	if ty.K == spec.KUnit {
+		ty = spec.Type{K: spec.KAny}
+	}
+	return ty
 }
 
 func (e *Engine) zero(ty spec.Type) *sx.T {
@@ -983,7 +1021,11 @@ func (e *Engine) eval(fr *frame, st *State, x ast.Expr, k cont) {
 					})
 					return
 				}
-				k(st, e.binop(x.Op, l, r))
+				res := e.binop(x.Op, l, r)
+				if x.Op == token.ADD || x.Op == token.SUB || x.Op == token.MUL {
+					e.checkOverflow(fr, st, x, res) // dialect go64 only: the result must fit the static type of the expression
+				}
+				k(st, res)
 			})
 		})
 	case *ast.CompositeLit:
